@@ -1822,7 +1822,9 @@ class t2data(object):
         self.indom = copy(source.indom)
         # incon file:
         if (sourceinconfilename != '') and (inconfilename != ''):
-            sourceinc = t2incon(sourceinconfilename)
+            # (more than 4 primary variables take more than one line per block)
+            nvar = source.multi.get('num_equations') if source.multi else None
+            sourceinc = t2incon(sourceinconfilename, num_variables = nvar)
             inc = t2incon()
             inc.transfer_from(sourceinc, sourcegeo, geo, mapping, colmapping)
             inc.write(inconfilename)
